@@ -468,11 +468,11 @@ def operand_field(body, op, depth=0):
             t = d[2]
             fr = op_fn(t["func"])
             if fr is not None and t["args"]:
-                for name, idx in mir.PASS_THROUGH:
-                    if callee_matches(fr, name):
-                        r = operand_field(body, t["args"][idx], depth + 1)
-                        if r:
-                            return r
+                idx = mir.pass_through_index(fr)
+                if idx is not None:
+                    r = operand_field(body, t["args"][idx], depth + 1)
+                    if r:
+                        return r
     return None
 
 
@@ -491,15 +491,16 @@ def field_writes(body, adt_suffix=None):
     return out
 
 
-def receiver_chain(body, op, depth=0):
-    """Follow a method-call receiver back to the ADT field it is derived from, through borrows, moves and *any*
-    call's first argument (iterator adaptor chains). Returns ((adt, field), [callee names innermost-last]) or None."""
+def receiver_chains(body, op, depth=0):
+    """All (field, chain) an operand may be derived from, through borrows, moves and any call's first argument
+    (iterator adaptor chains); multi-definition (phi) locals contribute every alternative."""
     p = op_place(op)
     if p is None or depth > 16:
-        return None
+        return []
     f = field_of(p)
     if f:
-        return f, []
+        return [(f, [])]
+    out = []
     for d in body.defs.get(p["l"], []):
         if d[0] == "stmt":
             rv = d[3]
@@ -507,26 +508,26 @@ def receiver_chain(body, op, depth=0):
             if q is not None:
                 f = field_of(q)
                 if f:
-                    return f, []
-                r = receiver_chain(body, {"copy": q}, depth + 1)
-                if r:
-                    return r
+                    out.append((f, []))
+                else:
+                    out += receiver_chains(body, {"copy": q}, depth + 1)
             elif "use" in rv:
-                r = receiver_chain(body, rv["use"], depth + 1)
-                if r:
-                    return r
+                out += receiver_chains(body, rv["use"], depth + 1)
             elif "cast" in rv:
-                r = receiver_chain(body, rv["cast"]["op"], depth + 1)
-                if r:
-                    return r
+                out += receiver_chains(body, rv["cast"]["op"], depth + 1)
         elif d[0] == "call":
             t = d[2]
             fr = op_fn(t["func"])
             if fr is not None and t["args"]:
-                r = receiver_chain(body, t["args"][0], depth + 1)
-                if r:
-                    return r[0], r[1] + [fn_name(fr)]
-    return None
+                for (fld, ch) in receiver_chains(body, t["args"][0], depth + 1):
+                    out.append((fld, ch + [fn_name(fr)]))
+    return out
+
+
+def receiver_chain(body, op, depth=0):
+    """first alternative of receiver_chains (kept for single-definition receivers)"""
+    r = receiver_chains(body, op, depth)
+    return r[0] if r else None
 
 
 def field_method_calls(body, adt_suffix, field):
@@ -535,13 +536,29 @@ def field_method_calls(body, adt_suffix, field):
     for b, t, fr in body.iter_calls():
         if fr is None or not t["args"]:
             continue
-        r = receiver_chain(body, t["args"][0])
-        if not r:
-            continue
-        (adt, name), chain = r
-        if name == field and adt and (adt == adt_suffix or adt.endswith("::" + adt_suffix)):
-            out.append((b, t, fn_name(fr), chain))
+        for (adt, name), chain in receiver_chains(body, t["args"][0]):
+            if name == field and adt and (adt == adt_suffix or adt.endswith("::" + adt_suffix)):
+                out.append((b, t, fn_name(fr), chain))
+                break
     return out
+
+
+def writes_none(body, rv):
+    """the assigned value is Option::None (directly or through a temporary)"""
+    if "agg" in rv:
+        return rv["agg"].get("vname") == "None"
+    if "use" in rv:
+        os_ = origins(body, rv["use"])
+        if not os_:
+            return False
+        for o in os_:
+            if o[0] != "agg":
+                return False
+            ag = body.blocks[o[1]]["stmts"][o[2]]["rv"]["agg"]
+            if ag.get("vname") != "None":
+                return False
+        return True
+    return False
 
 
 def bool_source(body, local, neg=False, depth=0):
